@@ -14,7 +14,7 @@ class P(Property):
     assumptions = ["FITPACK honouring the smoothing condition s is an oracle contract (spot-checked by the oracle, runs where it warns of non-convergence are discarded)"]
 
     def units(self, tier):
-        return [SmoothArgsUnit(), SmoothProgUnit(("C16",), ops=["smooth", "smooth", "shift_y", "scale_y", "scale_y", "scale_x", "interpolate", "repeat", "restore"], max_len=5, queries=False)]
+        return [SmoothArgsUnit(), SmoothProgUnit(("C16",), ops=["smooth", "smooth", "append", "append", "shift_y", "scale_y", "scale_y", "scale_x", "interpolate", "repeat", "restore"], max_len=5, queries=False)]
 
 
 PROPERTY = P()
